@@ -18,7 +18,7 @@ RULE = ('(cells) every (v1, e1, v2, e2) over values {-2, 0, 1.5, 3} x errors {0,
         'scalar path) and every (v, e, c) with constants c in {-2, -1, 0.5, 3, 0} for dataset-with-number and dataset-with-array; '
         '(shapes) shapes (), (1,), (3,), (2,2), (1,2,1) x bins {none, edges, centres, string-labelled centres} x right operand {dataset '
         'with the same bins, dataset without bins, ndarray, int, float} x 4 operations: result well formed, bins of the left operand, '
-        'operands unchanged; (chains) BFS over all sequences of <= 3 (thorough 4) steps from {binary op between two live datasets, op '
+        'operands unchanged; (chains) BFS over all sequences of <= 3 steps from {binary op between two live datasets, op '
         'with a constant, copy, mask, squeeze}: a state is the snapshot of all live datasets; after every step the new dataset equals '
         'the reference model, every older dataset is bit-for-bit unchanged, errors are >= 0 or NaN, a copy shares no memory with its '
         'original and writing into it leaves the original unchanged; non-trivial = cells with a zero or a negative ingredient, and '
@@ -28,7 +28,7 @@ ASSUMPTIONS = ['numpy arithmetic trusted; reference error of products/quotients 
                'squeeze() of a dataset without bins is outside the quantifier (bins given as edges or centres)']
 LEVEL_TEXT = ('All 144 cell combinations x 4 operations between datasets and all 12 x 5 cell/constant combinations are evaluated through '
               'the array and scalar paths and compared with independently written first-order formulas (incl. sign of the error); every '
-              'shape x bins kind x right-operand kind is checked for well-formedness, kept bins and untouched operands; chains of <= 3-4 '
+              'shape x bins kind x right-operand kind is checked for well-formedness, kept bins and untouched operands; chains of <= 3 '
               'operations are explored breadth-first with a numpy reference model, bit-for-bit snapshots of all live datasets and an '
               'aliasing test of copies.')
 LEVEL_NOTE = 'small-scope on shapes (<= 4 cells) and chain length; floating-point comparison at rtol 1e-12.'
@@ -495,9 +495,9 @@ def _call(job):
 def run(tier, seed):
     jobs = [(job_cells, (op,)) for op in OPS]
     jobs += [(job_shapes, (shape,)) for shape in SHAPES]
-    depth = 3 if tier == 'quick' else 4
-    for shape in ((), (3,), (2, 2), (1, 2, 1)):
-        for kind in ('edges', 'centres', 'none'):
+    depth = 3          # depth 4 has ~1e8 states per shape: out of reach; thorough widens the shapes and bins kinds instead
+    for shape in (((), (3,), (2, 2), (1, 2, 1)) if tier == 'quick' else ((), (1,), (3,), (2, 2), (1, 2, 1), (2, 1))):
+        for kind in (('edges', 'centres', 'none') if tier == 'quick' else ('edges', 'centres', 'none', 'labels')):
             if shape == () and kind != 'none':
                 continue
             jobs.append((job_chain, (shape, kind, depth, tier)))
